@@ -63,6 +63,14 @@ TXS = {
 }
 
 
+DT = {'f64': jnp.float64, 'f32': jnp.float32, 'bf16': jnp.bfloat16, 'f16': jnp.float16}
+
+
+def wide(x, i):
+  """a float32 pseudo-random gradient (depends only on shape and step) for mixed-precision cases"""
+  return jnp.sin(jnp.arange(x.size, dtype=jnp.float32).reshape(x.shape) * 1.37 + (i + 1) * 0.731).astype(jnp.float32)
+
+
 def bits(tree):
   return [np.asarray(x).tobytes().hex() + ':' + str(np.asarray(x).dtype) + ':' + str(np.asarray(x).shape) for x in jax.tree_util.tree_leaves(tree)]
 
@@ -71,7 +79,7 @@ def mk_params(desc):
   def rec(d):
     if isinstance(d, dict) and 'v' not in d:
       return {k: rec(v) for k, v in d.items()}
-    return jnp.asarray(np.array(d['v'], dtype=np.float64 if d.get('f64') else np.float32).reshape(d['shape']))
+    return jnp.asarray(np.array(d['v'], dtype=np.float64 if d.get('f64') else np.float32).reshape(d['shape'])).astype(DT[d['dtype']] if 'dtype' in d else (jnp.float64 if d.get('f64') else jnp.float32))
   return rec(desc)
 
 
@@ -82,6 +90,8 @@ def linen_ts(c):
   rec = Recorder(TXS[c['tx']]())
   tx = rec.tx()
   grads_seq = [jax.tree_util.tree_map(lambda x, i=i: (x * 0 + (i + 1)).astype(x.dtype) * (1 if i % 2 == 0 else -2), params) for i in range(c['steps'])]
+  if c.get('wide_grads'):
+    grads_seq = [jax.tree_util.tree_map(lambda x, i=i: wide(x, i), params) for i in range(c['steps'])]
   owg = c.get('owg')
   if owg:
     full = {'params': params, ts_lib.OVERWRITE_WITH_GRADIENT: {'scale': jnp.ones(2)}}
@@ -136,7 +146,7 @@ def build_model(vars_desc, share):
       if not hasattr(node, k):
         setattr(node, k, Box())
       node = getattr(node, k)
-    var = VT[v['type']](jnp.asarray(np.array(v['val'], dtype=np.float64)))
+    var = VT[v['type']](jnp.asarray(np.array(v['val'], dtype=np.float64)).astype(DT[v.get('dtype', 'f64')]))
     created[tuple(v['path'])] = var
     setattr(node, v['path'][-1], var)
   if share and len(vars_desc) >= 1:
@@ -169,6 +179,10 @@ def nnx_opt(c):
     params_now = nnx.state(model, wrt)
     g = jax.tree_util.tree_map(lambda x, i=i: x * 0 + (i + 1) * (1 if i % 2 == 0 else -2), params_now)
     gt = jax.tree_util.tree_map(lambda x, i=i: x * 0 + (i + 1) * (1 if i % 2 == 0 else -2), p)
+    if c.get('wide_grads'):
+      # gradients wider than the parameters (mixed precision): the hand loop promotes, applies, then casts once
+      g = jax.tree_util.tree_map(lambda x, i=i: wide(x, i), params_now)
+      gt = jax.tree_util.tree_map(lambda x, i=i: wide(x, i), p)
     snapshot_unselected = {pth: np.asarray(v.value).tobytes() for pth, v in created.items()}
     opt.update(g)
     u, o = txf().update(gt, o, p)
@@ -231,7 +245,7 @@ def metrics_case(c):
         if n == 1 and c.get('scalar_singletons'):
           v = batch[0]
         else:
-          v = jnp.asarray(np.array(batch, dtype=np.float32))
+          v = jnp.asarray(np.repeat(np.array(batch, dtype=np.float32), c.get('rep', 1)))
         avg.update(values=v)
         wf.update(values=v)
         mm.update(values=v)
